@@ -50,6 +50,8 @@ RULE = ('case = output root (existing / to be created) + pool of 1-4 distinct ta
         'tasks are enumerated. non-trivial = some task has a non-zero status or an unstartable '
         'command that is not in last position, or >= 2 task executions share the root; distinct = '
         'structural hash of the case; evaluations = task executions')
+RULE_ADDENDA = (' Also: several commands sharing one command line (call-counting script); rarely a never-ending command under the subprocess option timeout=4; one task in twenty without any command.')
+RULE = RULE + RULE_ADDENDA
 ASSUMPTIONS = [
     'commands are POSIX sh scripts run by /bin/sh (dash); exit statuses 0-255 and death by '
     'SIGKILL/SIGTERM (reported by subprocess as -9/-15) are the "arbitrary exit statuses"',
